@@ -1136,13 +1136,20 @@ def gen_hci(rng, tier, seed):
             handle = rng.choice([1, 1, 1, 2, 0x0EFF])
             pb = rng.randrange(4)
             bc = rng.choice([0, 0, 1, 2, 3])
-            payload = hostile(rng, ATT_TO_CLIENT + LE_SIG, 300)
+            payload = hostile(rng, ATT_TO_CLIENT + LE_SIG + SMP + ATT_TO_SERVER, 300)  # the peer here is a real stack: its answers to the victim's answers count too
             ln = rng.choice([len(payload), len(payload), 0, len(payload) + 5, 0xFFFF])
             data = (struct.pack('<HH', ln, rng.choice([4, 4, 5, 6, 0x40])) + payload) if pb in (0, 2) or rng.random() < 0.3 else payload
             if rng.random() < 0.15:
                 data = data[:rng.randrange(4)]
             hl = rng.choice([len(data), len(data), len(data) + 1, 0, 0xFFFF])
             frames.append((bytes([0x02]) + struct.pack('<HH', handle | pb << 12 | bc << 14, hl) + data).hex())
+        elif r < 0.66:
+            # a stray but correctly framed protocol PDU on a fixed channel of the live connection (valid or lightly damaged):
+            # the peer here is a real stack, so its answers to the victim's answers are part of the run
+            corpus, cid = rng.choice([(SMP, 6), (SMP, 6), (ATT_TO_SERVER, 4), (ATT_TO_CLIENT, 4), (LE_SIG, 5)])
+            payload = rng.choice(corpus) if rng.random() < 0.5 else hostile(rng, corpus, 80)
+            data = struct.pack('<HH', len(payload), cid) + payload
+            frames.append((bytes([0x02]) + struct.pack('<HH', 1 | rng.choice([0, 2]) << 12, len(data)) + data).hex())
         elif r < 0.7:
             n = rng.choice([0, 1, 3, 4, 12, 40])
             frames.append((bytes([0x05]) + bytes(rng.randrange(256) for _ in range(n))).hex())
